@@ -119,6 +119,25 @@ Theorem exhausted_rules :
   (forall id g n, exhausted (GenMut id g n : sig) = false).
 Proof. repeat split. Qed.
 
+(* ---- take ---- *)
+Theorem take_frames : forall fuel n (s : sig), n <= fuel ->
+  collect_take fuel (n, s) = (map (stream s) (seq 0 n), (0, after n s)).
+Proof.
+  induction fuel as [|fuel IH]; intros n s Hn.
+  - assert (n = 0) by lia. subst. reflexivity.
+  - cbn [Sig.collect_take]. unfold Sig.take_next. cbn [fst snd]. destruct n as [|n]; [reflexivity|].
+    destruct (next s) as [x s'] eqn:E.
+    assert (Hs' : s' = step s) by (unfold SigProofs.step; now rewrite E).
+    rewrite (IH n s' ltac:(lia)). cbn [seq map]. f_equal.
+    + f_equal; [unfold Sig.stream; cbn [Sig.after]; now rewrite E|].
+      rewrite <- seq_shift, map_map. apply map_ext. intros i. unfold Sig.stream. rewrite after_S. now rewrite Hs'.
+    + rewrite after_S. now rewrite Hs'.
+Qed.
+
+Theorem take_length fuel n (s : sig) : n <= fuel ->
+  length (fst (collect_take fuel (n, s))) = n /\ take_next (snd (collect_take fuel (n, s))) = (None, (0, after n s)).
+Proof. intros H. rewrite take_frames by assumption. cbn [fst snd]. now rewrite map_length, seq_length. Qed.
+
 (* ---- live_len ---- *)
 Hypothesis nch_pos : 0 < nch.
 
@@ -300,25 +319,6 @@ Proof.
     rewrite <- seq_shift, map_map. apply map_ext. intros i. unfold Sig.stream. rewrite after_S. now rewrite Hs'.
   - rewrite after_S. now rewrite Hs'.
 Qed.
-
-(* ---- take ---- *)
-Theorem take_frames : forall fuel n (s : sig), n <= fuel ->
-  collect_take fuel (n, s) = (map (stream s) (seq 0 n), (0, after n s)).
-Proof.
-  induction fuel as [|fuel IH]; intros n s Hn.
-  - assert (n = 0) by lia. subst. reflexivity.
-  - cbn [Sig.collect_take]. unfold Sig.take_next. cbn [fst snd]. destruct n as [|n]; [reflexivity|].
-    destruct (next s) as [x s'] eqn:E.
-    assert (Hs' : s' = step s) by (unfold SigProofs.step; now rewrite E).
-    rewrite (IH n s' ltac:(lia)). cbn [seq map]. f_equal.
-    + f_equal; [unfold Sig.stream; cbn [Sig.after]; now rewrite E|].
-      rewrite <- seq_shift, map_map. apply map_ext. intros i. unfold Sig.stream. rewrite after_S. now rewrite Hs'.
-    + rewrite after_S. now rewrite Hs'.
-Qed.
-
-Theorem take_length fuel n (s : sig) : n <= fuel ->
-  length (fst (collect_take fuel (n, s))) = n /\ take_next (snd (collect_take fuel (n, s))) = (None, (0, after n s)).
-Proof. intros H. rewrite take_frames by assumption. cbn [fst snd]. now rewrite map_length, seq_length. Qed.
 
 (* ---- into_interleaved_samples ---- *)
 Hypothesis channels_nonempty : forall f, channels f <> [].
